@@ -33,7 +33,7 @@ URLS = ["http://tracker.example/announce", "udp://t2.example:6969", "https://a.b
 
 
 def value_text():
-    return st.one_of(st.sampled_from(["c", "a comment", "x=y&z", "MyTracker", "with : colon", "0", "k = v"]),
+    return st.one_of(st.sampled_from(["c", "a comment", "x=y&z", "MyTracker", "with : colon", "0", "k = v", "Season 2 #3 ; remastered", "a ;b", "x #y"]),
                      st.text(alphabet="abc XYZ09_=&+:;[]", min_size=1, max_size=12)).filter(
         lambda t: t.strip() == t and t and t[0] not in "#;-" and t.lower() not in ("true", "false"))
 
@@ -72,7 +72,8 @@ def strategy(tier):
                 "out_dir_form": draw(st.sampled_from([False, False, False, True])),
                 "content_spelling": draw(st.sampled_from(["abs", "abs", "trailing-sep", "dot-rel", "double-sep"])),
                 "out_inside_content": draw(st.sampled_from([False, False, False, True])),
-                "decoy_ini_in_cwd": draw(st.sampled_from([False, False, True]))}
+                "decoy_ini_in_cwd": draw(st.sampled_from([False, False, True])),
+                "relative_out": draw(st.sampled_from([False, False, True]))}
     return case()
 
 
@@ -223,7 +224,7 @@ def run_case(case):
                 try:
                     target.execute(cli_argv(warm, content, os.path.join(wdir, "cli.torrent"))[0])
                     with open(os.path.join(scr, "warm.ini"), "w", encoding="ascii") as fd:
-                        fd.write(config_text(warm, os.path.join(wdir, "config.torrent")))
+                        fd.write("[DEFAULT]\nsource = FROM-DEFAULT-SECTION\nprivate = true\n" + config_text(warm, os.path.join(wdir, "config.torrent")))
                     target.execute(["create", "--config", "--config-path", os.path.join(scr, "warm.ini"), content])
                     kw = lib_kwargs(warm, content, os.path.join(wdir, "lib.torrent"))
                     with target.quiet():
@@ -249,8 +250,11 @@ def run_case(case):
                 odir = route_content
                 out = os.path.join(route_content, "res-inside.torrent")
             want = expected_out(out, tree["name"])
+            if case.get("relative_out") and odir != route_content:
+                out = os.path.relpath(out, scr) + ("/" if out.endswith("/") else "")     # relative to the cwd of every route
             if route == "config":
-                cfg = os.path.join(scr, "conf.ini")
+                os.makedirs(os.path.join(scr, "confdir"), exist_ok=True)
+                cfg = os.path.join(scr, "confdir", "conf.ini")                          # not in the working directory
                 with open(cfg, "w", encoding="ascii") as fd:
                     fd.write(config_text(case, out))
                 if case.get("decoy_ini_in_cwd"):
